@@ -155,7 +155,132 @@ Proof.
   apply lex_term_conforms; [exact Hok | now apply lex_wf_of_enum].
 Qed.
 
+(* ---- 4. sentences and tasks of the enum formatter ---- *)
+Section FmtLexN.
+  Variable F : Type.
+  Variable fshow : F -> str.
+  Variable E : efmt.
+  Hypothesis Hsp : space_format_terms E = space_format_items E.
+  Notation L := (layout_of_efmt E).
+
+  Lemma fmt_lex_truth t :
+    fmt_truth F fshow E t = lfmt_truth L (map fshow (truth_list t)).
+  Proof. destruct t; reflexivity. Qed.
+
+  Lemma fmt_lex_sentence s :
+    fmt_sentence F fshow E s = lfmt_sentence L (lex_of_sentence F fshow E s).
+  Proof.
+    unfold fmt_sentence, lfmt_sentence, lex_of_sentence. cbn [ls_term ls_punct ls_stamp ls_truth ll_sp_items layout_of_efmt].
+    rewrite fmt_lex_term, Hsp. f_equal. f_equal. f_equal. f_equal. f_equal.
+    destruct (s_truth s) as [t|]; [apply fmt_lex_truth | reflexivity].
+  Qed.
+
+  Lemma fmt_lex_task k : fmt_task F fshow E k = lfmt_task L (lex_of_task F fshow E k).
+  Proof.
+    unfold fmt_task, lfmt_task, lex_of_task. cbn [lt_budget lt_sentence]. rewrite fmt_lex_sentence. reflexivity.
+  Qed.
+
+  Lemma fmt_lex_narsese v : fmt_narsese F fshow E v = lfmt_narsese L (lex_of_narsese F fshow E v).
+  Proof.
+    destruct v as [t|s|k]; cbn [fmt_narsese lex_of_narsese lfmt_narsese];
+      [apply fmt_lex_term | apply fmt_lex_sentence | apply fmt_lex_task].
+  Qed.
+End FmtLexN.
+
+Section WfN.
+  Variable ucls : uclass -> N -> bool.
+  Hypothesis Hok : ucls_ok ucls.
+  Variable F : Type.
+  Variable fshow : F -> str.
+  Notation X0 := opennars_lexicon.
+  (* f64's Display on the numbers of the value: digits and dots (C13: values in [0,1]) *)
+  Definition shown_ok (fs : list F) : Prop := forall f, In f fs -> num_ok (fshow f) = true.
+
+  Lemma shown_ok_forallb fs : shown_ok fs -> forallb num_ok (map fshow fs) = true.
+  Proof. intros H. apply forallb_forall. intros x Hx. apply in_map_iff in Hx as [f [<- Hf]]. now apply H. Qed.
+
+  Lemma show_N_body i : forallb stamp_body_char (show_N i) = true.
+  Proof.
+    destruct (show_N_digits i) as [_ Hd]. apply forallb_forall. intros c Hc. rewrite Forall_forall in Hd.
+    unfold stamp_body_char. now rewrite (Hd c Hc).
+  Qed.
+  Lemma show_Z_body z : forallb stamp_body_char (show_Z z) = true.
+  Proof. destruct z; cbn [show_Z forallb]; [reflexivity | apply show_N_body | now rewrite show_N_body]. Qed.
+
+  Lemma take_app_exact' {A} (a b : list A) : take (length (a ++ b) - length b) (a ++ b) = a.
+  Proof.
+    rewrite app_length. replace (length a + length b - length b)%nat with (length a) by lia.
+    induction a as [|x a IH]; cbn [length take app]; [destruct b; reflexivity | now rewrite IH].
+  Qed.
+
+  Lemma stamp_ok_enum st : stamp_ok X0 (fmt_stamp FORMAT_ASCII st) = true.
+  Proof.
+    destruct st as [| | | |t]; try (vm_compute; reflexivity).
+    unfold stamp_ok. apply orb_true_iff. right. unfold stamp_fixed_ok.
+    change (fst (lx_fixed X0)) with [58; 33]. change (snd (lx_fixed X0)) with [58].
+    change (fmt_stamp FORMAT_ASCII (Fixed t)) with ([58; 33] ++ show_Z t ++ [58]).
+    rewrite starts_app, drop_app_length. cbn [andb].
+    assert (He : ends [58] (show_Z t ++ [58]) = true) by (apply ends_spec; now exists (show_Z t)).
+    rewrite He, take_app_exact'. cbn [andb]. apply show_Z_body.
+  Qed.
+
+  Lemma lex_wf_of_sentence s :
+    term_ok_readme ucls (s_term s) = true ->
+    shown_ok (match s_truth s with Some t => truth_list t | None => [] end) ->
+    lsentence_wf ucls X0 (lex_of_sentence F fshow FORMAT_ASCII s) = true.
+  Proof.
+    intros Hw Hshow. unfold lsentence_wf, lex_of_sentence. cbn [ls_term ls_punct ls_stamp ls_truth].
+    rewrite (lex_wf_of_enum ucls Hok _ Hw), stamp_ok_enum.
+    assert (Hp : str_mem (fmt_punct FORMAT_ASCII (s_punct s)) (lx_punctuations X0) = true)
+      by (destruct (s_punct s); vm_compute; reflexivity).
+    rewrite Hp. cbn [andb].
+    destruct (s_truth s) as [t|]; [|reflexivity]. now apply shown_ok_forallb.
+  Qed.
+
+  Lemma lex_wf_of_narsese v :
+    narsese_ok_readme ucls v = true -> shown_ok (narsese_floats v) ->
+    lnarsese_wf ucls X0 (lex_of_narsese F fshow FORMAT_ASCII v) = true.
+  Proof.
+    unfold narsese_ok_readme. destruct v as [t|s|k]; cbn [lex_of_narsese lnarsese_wf narsese_floats]; intros Hw Hshow.
+    - now apply lex_wf_of_enum.
+    - now apply lex_wf_of_sentence.
+    - unfold ltask_wf, lex_of_task. cbn [lt_budget lt_sentence].
+      rewrite lex_wf_of_sentence; [| exact Hw | intros f Hf; apply Hshow, in_or_app; now left].
+      rewrite andb_true_r. apply shown_ok_forallb. intros f Hf. apply Hshow, in_or_app. now right.
+  Qed.
+End WfN.
+
+(* every well-formed enum value: the text the enum ASCII formatter prints is a sentence of the grammar,
+   of the same kind, deriving the lexical tree of the value *)
+Theorem enum_narsese_conforms ucls (F : Type) (fshow : F -> str) (v : narsese F) :
+  ucls_ok ucls -> (forall f, In f (narsese_floats v) -> num_ok (fshow f) = true) -> narsese_ok_readme ucls v = true ->
+  exists n, forall m, (n <= m)%nat ->
+    readme_parse_with ucls expected_grammar m (fmt_narsese F fshow FORMAT_ASCII v)
+      = RValue (lex_of_narsese F fshow FORMAT_ASCII v).
+Proof.
+  intros Hok Hshow Hw. rewrite (fmt_lex_narsese F fshow FORMAT_ASCII eq_refl). rewrite (proj1 layout_std).
+  apply lex_narsese_conforms; [exact Hok | now apply lex_wf_of_narsese].
+Qed.
+
+
 (* ---- the statements of Props/C11.v: concrete Unicode tables, the REGENERATED grammar and layout ---- *)
+Lemma C11_lex_proof v :
+  lnarsese_wf ucls_tab opennars_lexicon v = true ->
+  exists n, forall m, (n <= m)%nat ->
+    readme_parse_with ucls_tab readme_grammar m (lfmt_narsese lex_ascii_layout v) = RValue v.
+Proof.
+  intros Hw. rewrite readme_pinned_proof, (proj2 layout_std). apply lex_narsese_conforms; [apply ucls_tab_ok | exact Hw].
+Qed.
+
+Lemma C11_enum_proof (F : Type) (fshow : F -> str) (v : narsese F) :
+  (forall f, In f (narsese_floats v) -> num_ok (fshow f) = true) -> narsese_ok_readme ucls_tab v = true ->
+  exists n, forall m, (n <= m)%nat ->
+    readme_parse_with ucls_tab readme_grammar m (fmt_narsese F fshow FORMAT_ASCII v)
+      = RValue (lex_of_narsese F fshow FORMAT_ASCII v).
+Proof.
+  intros Hs Hw. rewrite readme_pinned_proof. apply enum_narsese_conforms; [apply ucls_tab_ok | exact Hs | exact Hw].
+Qed.
+
 Lemma C11_lex_terms_proof x :
   lterm_wf ucls_tab opennars_lexicon x = true ->
   exists n, forall m, (n <= m)%nat ->
@@ -169,6 +294,27 @@ Lemma C11_enum_terms_proof t :
   exists n, forall m, (n <= m)%nat ->
     readme_parse_with ucls_tab readme_grammar m (fmt_term FORMAT_ASCII t) = RValue (NTerm (lex_of_term FORMAT_ASCII t)).
 Proof. intros Hw. rewrite readme_pinned_proof. apply enum_term_conforms; [apply ucls_tab_ok | exact Hw]. Qed.
+
+(* the executable recogniser (fuel_for) on these texts: the value, or out of fuel -- never a rejection,
+   never another kind or tree *)
+Lemma C11_lex_exec_proof v :
+  lnarsese_wf ucls_tab opennars_lexicon v = true ->
+  readme_parse_g readme_grammar (lfmt_narsese lex_ascii_layout v) = RValue v \/
+  readme_parse_g readme_grammar (lfmt_narsese lex_ascii_layout v) = RNoFuel.
+Proof. intros Hw. unfold readme_parse_g. apply enough_fuel_any_fuel. now apply C11_lex_proof. Qed.
+
+Lemma C11_enum_exec_proof (F : Type) (fshow : F -> str) (v : narsese F) :
+  (forall f, In f (narsese_floats v) -> num_ok (fshow f) = true) -> narsese_ok_readme ucls_tab v = true ->
+  readme_parse_g readme_grammar (fmt_narsese F fshow FORMAT_ASCII v) = RValue (lex_of_narsese F fshow FORMAT_ASCII v) \/
+  readme_parse_g readme_grammar (fmt_narsese F fshow FORMAT_ASCII v) = RNoFuel.
+Proof. intros Hs Hw. unfold readme_parse_g. apply enough_fuel_any_fuel. now apply C11_enum_proof. Qed.
+
+(* the README's own example task as a lexical value and as an enum value (numbers as their Display strings) *)
+Definition sample_ltask (t : lterm) : lnarsese :=
+  NTask {| lt_budget := [ss "0.5"; ss "0.75"; ss "0.4"];
+           lt_sentence := {| ls_term := t; ls_punct := ss "."; ls_stamp := ss ":!-1:"; ls_truth := [ss "1.0"; ss "0.9"] |} |}.
+Definition sample_task (t : term) : narsese str :=
+  NTask (SJudgement t (TruthDouble (ss "1.0") (ss "0.9")) (Fixed (-1)%Z), BudgetTriple (ss "0.5") (ss "0.75") (ss "0.4")).
 
 (* the hypotheses are satisfiable: the term of the README's own example task *)
 Definition sample_lterm : lterm :=
@@ -198,3 +344,20 @@ Definition sample_term : term :=
     (TBox1 Negation (TName Word (ss "good"))).
 Lemma sample_term_ok : term_ok_readme ucls_tab sample_term = true.
 Proof. vm_compute. reflexivity. Qed.
+
+Lemma sample_ltask_ok :
+  lnarsese_wf ucls_tab opennars_lexicon (sample_ltask sample_lterm) = true /\
+  lfmt_narsese lex_ascii_layout (sample_ltask sample_lterm) =
+    ss "$0.5;0.75;0.4$ <(&/, <ball {-] left>, <(*, {SELF}, $any, #some) --> ^go-to>) ==> <SELF {-] good>>. :!-1: %1.0;0.9%" /\
+  readme_parse_g readme_grammar (lfmt_narsese lex_ascii_layout (sample_ltask sample_lterm)) = RValue (sample_ltask sample_lterm).
+Proof. vm_compute. repeat split. Qed.
+
+Lemma sample_task_ok :
+  narsese_ok_readme ucls_tab (sample_task sample_term) = true /\
+  (forall f, In f (narsese_floats (sample_task sample_term)) -> num_ok ((fun s : str => s) f) = true) /\
+  readme_parse_g readme_grammar (fmt_narsese str (fun s => s) FORMAT_ASCII (sample_task sample_term))
+    = RValue (lex_of_narsese str (fun s => s) FORMAT_ASCII (sample_task sample_term)).
+Proof.
+  split; [vm_compute; reflexivity|]. split; [|vm_compute; reflexivity].
+  intros f Hf. vm_compute in Hf. repeat (destruct Hf as [<-|Hf]; [vm_compute; reflexivity|]). destruct Hf.
+Qed.
